@@ -235,6 +235,11 @@ def r13d(chk, rid='R13.d'):
         wrong = [r for r in rejects if rx.accepts(nfa, r)]
         chk.ob(rid, PROFILES, 'Profiles._MACROS', f'{{{mac}}} accepts a number with each of {units.split()} and 0', not bad and not wrong and rx.accepts(nfa, '0'),
                f'rejects units {bad}; accepts {wrong}')
+    eval_validate(chk, rid)
+
+
+def eval_validate(chk, rid):
+    """Profiles.validate / validateWithProfile(unknown name) over a three-profile model registry."""
     # validate() and validateWithProfile() over a three-profile model registry, by evaluation
     import itertools
 
@@ -256,12 +261,13 @@ def r13d(chk, rid='R13.d'):
     for kinds in itertools.product(('absent', 'accept', 'reject', 'raise'), repeat=3):
         beh = dict(zip(names, kinds))
         props = {p: ({'x': validator(beh[p])} if beh[p] != 'absent' else {'other': validator('reject')}) for p in names}
-        me = Record(_profileNames=list(names), _profilesProperties=props, _defaultProfiles=None, _knownNames=[k for p in names for k in props[p]], _log=Record(error=lambda *a, **k: None))
-        got = Evaluator(vfn, intrinsics={'self._log.error': lambda *a, **k: None}, module=pm, cls='Profiles').run(self=me, name='x', value='v')
-        n += 1
-        want = any(k == 'accept' for k in kinds)
-        if isinstance(got, Raised) or bool(got) != want or not isinstance(got, bool):
-            bad.append(f'registry {beh}: validate gives {got!r}, prescribed {want}')
+        for dflt in (None, ('B',), 'C'):
+            me = Record(_profileNames=list(names), _profilesProperties=props, _defaultProfiles=dflt, _knownNames=[k for p in names for k in props[p]], _log=Record(error=lambda *a, **k: None))
+            got = Evaluator(vfn, intrinsics={'self._log.error': lambda *a, **k: None}, module=pm, cls='Profiles').run(self=me, name='x', value='v')
+            n += 1
+            want = any(k == 'accept' for k in kinds)
+            if isinstance(got, Raised) or bool(got) != want or not isinstance(got, bool):
+                bad.append(f'registry {beh}, defaultProfiles={dflt!r}: validate gives {got!r}, prescribed {want} (restricting the default profiles never changes whether a value is valid)')
         unknown = Evaluator(wfn, intrinsics={'self._log.error': lambda *a, **k: None}, module=pm, cls='Profiles').run(self=me, name='nosuch', value='v')
         if isinstance(unknown, Raised) or tuple(unknown)[:2] != (False, False) or list(tuple(unknown)[2]):
             bad.append(f'registry {beh}: an unknown property name gives {unknown!r}')
